@@ -94,7 +94,7 @@ func (st *State) execSimple(fr *Frame, in ssa.Instruction) bool {
 		v := st.val(fr, x.X)
 		fr.vals[x] = st.convertIface(v, x.X.Type(), x.Type())
 	case *ssa.Convert:
-		fr.vals[x] = st.convert(st.val(fr, x.X), x.X.Type(), x.Type())
+		fr.vals[x] = st.convert(x, st.val(fr, x.X), x.X.Type(), x.Type())
 	case *ssa.MakeInterface:
 		fr.vals[x] = st.makeInterface(st.val(fr, x.X), x.X.Type(), x.Type())
 	case *ssa.TypeAssert:
@@ -199,6 +199,7 @@ func (st *State) execUnOp(fr *Frame, x *ssa.UnOp) bool {
 			st.panicAt(fr, x, "nil-deref", Neq(t, IntLit(0)))
 		}
 		a := st.ptrAddr(v, pt)
+		defer st.rangeAssume(fr, x)
 		if a.Kind == "global" {
 			if c, ok := globalConst(st, a); ok {
 				fr.vals[x] = c
@@ -424,7 +425,7 @@ func intRange(t types.Type) (*Term, *Term, bool) {
 	return BigLit(lo), BigLit(hi), true
 }
 
-func (st *State) convert(v SVal, from, to types.Type) SVal {
+func (st *State) convert(in ssa.Instruction, v SVal, from, to types.Type) SVal {
 	fb, fok := from.Underlying().(*types.Basic)
 	tb, tok := to.Underlying().(*types.Basic)
 	if fok && tok {
@@ -433,8 +434,16 @@ func (st *State) convert(v SVal, from, to types.Type) SVal {
 		case fb.Info()&types.IsInteger != 0 && tb.Info()&types.IsFloat != 0:
 			return ToReal(x)
 		case fb.Info()&types.IsFloat != 0 && tb.Info()&types.IsInteger != 0:
-			// truncation toward zero
-			return st.define("trunc", Ite(Ge(x, RealLit(0)), App(SInt, "to_int", x), Sub(IntLit(0), App(SInt, "to_int", App(SReal, "-", x)))))
+			// truncation toward zero; in checked units the value must fit the target type
+			r := st.define("trunc", st.truncReal(x))
+			if st.u.c.Checked && in != nil {
+				if lo, hi, ok := intRange(to); ok {
+					fr := st.frames[len(st.frames)-1]
+					st.e.addObligation(st, st.u, "nooverflow", "float-to-int", st.siteName(fr, in, "convert"), And(Ge(r, lo), Le(r, hi)), st.u.c.Props, "float to integer conversion stays in range", false)
+					st.assume(And(Ge(r, lo), Le(r, hi)))
+				}
+			}
+			return r
 		case fb.Info()&types.IsInteger != 0 && tb.Info()&types.IsInteger != 0:
 			if st.u.c.Checked {
 				lo, hi, ok := intRange(to)
@@ -483,6 +492,9 @@ func (st *State) convert(v SVal, from, to types.Type) SVal {
 		}
 	}
 	if _, ok := to.Underlying().(*types.Pointer); ok {
+		return v
+	}
+	if tok && tb.Kind() == types.UnsafePointer {
 		return v
 	}
 	if types.Identical(from.Underlying(), to.Underlying()) {
@@ -644,6 +656,16 @@ func (st *State) sliceOp(fr *Frame, x *ssa.Slice) SVal {
 			r := App(SStr, f, s, lo, hi)
 			st.assume(Eq(st.strLen(r), Sub(hi, lo)))
 			return r
+		}
+	}
+	if _, ok := xv.(*AddrV); ok {
+		if pt, ok := x.X.Type().Underlying().(*types.Pointer); ok {
+			if at, ok := pt.Elem().Underlying().(*types.Array); ok {
+				// bytes of an opaque array value (uuid etc.): contents abstracted
+				sv := st.freshVal("arrview", types.NewSlice(at.Elem())).(*SliceV)
+				st.assume(And(Neq(sv.Base, IntLit(0)), Eq(sv.Len, IntLit(at.Len()))))
+				return sv
+			}
 		}
 	}
 	st.unsupported("Slice of %T (%s)", xv, x.X.Type())
@@ -821,4 +843,18 @@ func nestedStore(arr *Term, idx []*Term, v *Term) *Term {
 		return Store(arr, idx[0], v)
 	}
 	return Store(arr, idx[0], nestedStore(Select(arr, idx[0]), idx[1:], v))
+}
+
+// rangeAssume: in checked units a loaded value of a sized integer type lies in its type's range.
+func (st *State) rangeAssume(fr *Frame, x ssa.Value) {
+	if !st.u.c.Checked {
+		return
+	}
+	t, ok := fr.vals[x].(*Term)
+	if !ok || t.Sort != SInt {
+		return
+	}
+	if lo, hi, ok := intRange(x.Type()); ok {
+		st.assume(And(Ge(t, lo), Le(t, hi)))
+	}
 }
